@@ -522,6 +522,9 @@ func runOne(t *testing.T, h history, c *mc.Chooser, o runOpts) (out mc.Outcome) 
 			obs.WriteByte(' ')
 			switch s.what {
 			case "blocked":
+				// GetCertificate waits for the watcher's lock. No gate lies inside a locked section, so with every goroutine
+				// parked or idle the lock is simply held - for good
+				viol(&out, "handshakes-block", "%s: after %s GetCertificate does not return: the watcher's lock is held and nothing releases it (every handshake from now on waits)", h, when)
 				return
 			case "nil", "error", "empty", "unknown":
 				viol(&out, "no-certificate|what="+s.what, "%s: after %s the proxy presents no usable certificate (%s %s): handshakes fail", h, when, s.what, s.detail)
